@@ -647,8 +647,8 @@ func ruleC04PositionFromDrive(c *Ctx) {
 			c.verdictIf(len(bad) == 0, rule, f, fmt.Sprintf("block count#%d", n), as.Pos(), "the next position is computed from the reader's own offset after the member was skipped",
 				"the next record position is computed from "+strings.Join(bad, ", ")+" rather than from the reader's offset after skipping the member: header sizes are the logical (uncompressed, substituted) ones, so positions drift under compression/encryption or batched members")
 		})
-		if n < half(2) {
-			c.unresolved("only %d block-count computations found in %s", n, name)
+		if n == 0 {
+			c.ok(rule, f, "no math.Ceil form", f.Decl.Pos(), false, "block counts are not computed through math.Ceil here (integer forms are judged by C04.block-count-rounds-up)")
 		}
 	}
 }
@@ -2267,5 +2267,456 @@ func ruleC14FlushUnconditional(c *Ctx) {
 	}
 	if n == 0 {
 		c.unresolved("syncWithoutLocking no longer calls Update")
+	}
+}
+
+// ================= fifth round =================
+
+func init() {
+	extend("C10", ruleC10IndexGuarded)
+	extend("C11", ruleC11LockHeldThroughout)
+	extend("C12", ruleC12RecursiveDeleteSites)
+	extend("C02", ruleC12RecursiveDeleteSitesAs("C02.recursive-delete-sites"))
+	extend("C15", ruleC15ReadOnlyMonotone)
+	extend("C04", ruleC04BlockCountRoundsUp)
+}
+
+// ruleC10IndexGuarded: every slice index with a non-loop index in the library's drive/index path is dominated by a
+// length test that implies it is in range (an out-of-range index panics and takes the process down).
+func ruleC10IndexGuarded(c *Ctx) {
+	const rule = "C10.index-guarded"
+	c.floor(rule, 6, "slice index expressions with a variable or constant index in the drive/index path")
+	scope := map[string]bool{"pkg/operations": true, "pkg/recovery": true, "pkg/persisters": true, "pkg/fs": true, "pkg/signature": true, "pkg/encryption": true, "pkg/keys": true, "pkg/inventory": true, "pkg/tape": true}
+	n := 0
+	for _, f := range c.Funcs {
+		if !scope[f.RelPkg()] {
+			continue
+		}
+		info := f.Pkg.TypesInfo
+		// loop variables that range over a slice are in range by construction
+		inRange := map[types.Object]types.Object{} // index var -> slice object
+		walkOwn(f.Body(), func(nd ast.Node) {
+			if rs, ok := nd.(*ast.RangeStmt); ok && rs.Key != nil {
+				if k := objOfIdent(info, rs.Key); k != nil {
+					inRange[k] = objOfIdent(info, rs.X)
+				}
+			}
+		})
+		var fl *Flow
+		k := 0
+		walkOwn(f.Body(), func(nd ast.Node) {
+			ix, ok := nd.(*ast.IndexExpr)
+			if !ok {
+				return
+			}
+			tv, ok := info.Types[ix.X]
+			if !ok {
+				return
+			}
+			if _, isSlice := tv.Type.Underlying().(*types.Slice); !isSlice {
+				return
+			}
+			base := objOfIdent(info, ix.X)
+			idxObj := objOfIdent(info, ix.Index)
+			if idxObj != nil && inRange[idxObj] != nil && inRange[idxObj] == base {
+				return
+			}
+			n++
+			k++
+			construct := fmt.Sprintf("index#%d %s", k, exprString(ix))
+			if base == nil {
+				c.ok(rule, f, construct, ix.Pos(), false, "index on a non-variable slice expression (not judged)")
+				return
+			}
+			var constIdx int64 = -1
+			if itv := info.Types[ix.Index]; itv.Value != nil {
+				if v, ok := constantInt(itv.Value.String()); ok {
+					constIdx = v
+				}
+			}
+			if idxObj == nil && constIdx < 0 {
+				c.ok(rule, f, construct, ix.Pos(), false, "computed index (not judged)")
+				return
+			}
+			if fl == nil {
+				fl = c.flow(f)
+			}
+			isLen := func(e ast.Expr) bool {
+				call, ok := ast.Unparen(e).(*ast.CallExpr)
+				if !ok || len(call.Args) != 1 {
+					return false
+				}
+				b, ok := calleeObj(info, call).(*types.Builtin)
+				return ok && b.Name() == "len" && objOfIdent(info, call.Args[0]) == base
+			}
+			isIdx := func(e ast.Expr) (bool, int64) {
+				if idxObj != nil && objOfIdent(info, e) == idxObj {
+					return true, 0
+				}
+				if etv := info.Types[e]; etv.Value != nil {
+					if v, ok := constantInt(etv.Value.String()); ok {
+						return constIdx >= 0, v
+					}
+				}
+				return false, 0
+			}
+			proves := func(ft Fact) bool {
+				be, ok := ast.Unparen(ft.E).(*ast.BinaryExpr)
+				if !ok {
+					return false
+				}
+				op := be.Op
+				l, r := be.X, be.Y
+				// normalise to `len(x) OP other`
+				if isLen(r) {
+					l, r = r, l
+					switch op {
+					case token.LSS:
+						op = token.GTR
+					case token.GTR:
+						op = token.LSS
+					case token.LEQ:
+						op = token.GEQ
+					case token.GEQ:
+						op = token.LEQ
+					}
+				}
+				if !isLen(l) {
+					return false
+				}
+				ok2, cv := isIdx(r)
+				if !ok2 {
+					return false
+				}
+				if !ft.Pos {
+					switch op { // negate
+					case token.LSS:
+						op = token.GEQ
+					case token.LEQ:
+						op = token.GTR
+					case token.GTR:
+						op = token.LEQ
+					case token.GEQ:
+						op = token.LSS
+					case token.EQL:
+						op = token.NEQ
+					case token.NEQ:
+						op = token.EQL
+					default:
+						return false
+					}
+				}
+				if idxObj != nil {
+					return op == token.GTR // len(x) > i
+				}
+				// constant index k: need len(x) > k
+				switch op {
+				case token.GTR:
+					return cv >= constIdx
+				case token.GEQ:
+					return cv >= constIdx+1
+				case token.NEQ:
+					return cv == 0 && constIdx == 0
+				}
+				return false
+			}
+			okk, reach := fl.guardedBy(ix, proves, nil)
+			if !reach {
+				return
+			}
+			// a closure indexing a captured slice: the guard may sit in the enclosing function before the closure is built
+			for g := f; !okk && g.Lit != nil && g.Outer != nil; g = g.Outer {
+				if base.Pos() >= g.Lit.Pos() && base.Pos() < g.Lit.End() {
+					break // the slice is the closure's own variable
+				}
+				ofl := c.flow(g.Outer)
+				if o2, r2 := ofl.guardedBy(g.Lit, proves, nil); r2 && o2 {
+					okk = true
+				}
+			}
+			c.verdictIf(okk, rule, f, construct, ix.Pos(), "dominated by a length test that puts the index in range",
+				exprString(ix)+" is not dominated by a length test that implies the index is in range (e.g. `i > len(s)` instead of `i >= len(s)`): a fault that leaves one record more on the tape than the call wrote makes the next call panic inside the indexer")
+		})
+	}
+	if n < half(6) {
+		c.unresolved("only %d slice index expressions found", n)
+	}
+}
+
+func constantInt(s string) (int64, bool) {
+	var v int64
+	if len(s) == 0 || len(s) > 18 {
+		return 0, false
+	}
+	for _, ch := range s {
+		if ch < '0' || ch > '9' {
+			return 0, false
+		}
+		v = v*10 + int64(ch-'0')
+	}
+	return v, true
+}
+
+// ruleC11LockHeldThroughout: an exported method holds ioLock from its acquisition to its return; it is released
+// explicitly only in the frozen check-then-delegate methods.
+func ruleC11LockHeldThroughout(c *Ctx) {
+	const rule = "C11.lock-held-throughout"
+	c.floor(rule, 2, "explicit ioLock releases in pkg/fs (plus one summary obligation)")
+	ioS, ioF := c.field("pkg/fs", "STFS", "ioLock"), c.field("pkg/fs", "File", "ioLock")
+	if ioS == nil || ioF == nil {
+		return
+	}
+	explicitOK := map[string]string{
+		"(*File).ReadAt":       "locks only to read the cached kind, then delegates to Seek/Read which lock themselves",
+		"(*File).Readdirnames": "locks only to read the cached kind, then delegates to Readdir which locks itself",
+	}
+	n := 0
+	for _, f := range c.Funcs {
+		if f.RelPkg() != "pkg/fs" {
+			continue
+		}
+		info := f.Pkg.TypesInfo
+		deferred := map[*ast.CallExpr]bool{}
+		walkOwn(f.Body(), func(nd ast.Node) {
+			if d, ok := nd.(*ast.DeferStmt); ok {
+				deferred[d.Call] = true
+			}
+		})
+		k := 0
+		for _, cs := range f.calls {
+			mv, op := mutexField(info, cs.Call)
+			if mv != ioS && mv != ioF {
+				continue
+			}
+			if op == "Lock" {
+				n++
+				continue
+			}
+			if op != "Unlock" || deferred[cs.Call] {
+				continue
+			}
+			k++
+			why, ok := explicitOK[f.Name]
+			c.verdictIf(ok, rule, f, fmt.Sprintf("explicit Unlock#%d", k), cs.Call.Pos(), "explicit release in a check-then-delegate method: "+why,
+				"ioLock is released in the middle of "+f.Name+" (not by defer at return): while it is released another caller can start an operation on the same drive/handle state, which the code below then continues to use")
+		}
+	}
+	c.ok(rule, nil, "acquisitions counted", token.NoPos, false, "%d ioLock acquisitions inspected", n)
+	if n < half(20) {
+		c.unresolved("only %d ioLock acquisitions found in pkg/fs", n)
+	}
+}
+
+// ruleC12RecursiveDeleteSites: Operations.Delete removes a whole subtree; the filesystem layer may call it only
+// from RemoveAll (recursive by contract) and from the emptiness-checked single removal.
+func ruleC12RecursiveDeleteSites(c *Ctx) {
+	ruleC12RecursiveDeleteSitesAs("C12.recursive-delete-sites")(c)
+}
+
+func ruleC12RecursiveDeleteSitesAs(rule string) func(*Ctx) {
+	return func(c *Ctx) {
+		c.floor(rule, 2, "call sites of Operations.Delete in pkg/fs")
+		del := c.fn("pkg/operations", "(*Operations).Delete")
+		if del == nil {
+			return
+		}
+		allowed := map[string]string{
+			"(*STFS).RemoveAll":            "recursive by contract",
+			"(*STFS).removeWithoutLocking": "checks that a directory is empty first (C02.precondition-before-append)",
+		}
+		n := 0
+		for _, f := range c.Funcs {
+			if f.RelPkg() != "pkg/fs" {
+				continue
+			}
+			root := f
+			for root.Outer != nil {
+				root = root.Outer
+			}
+			for _, cs := range f.calls {
+				if cs.Target != del {
+					continue
+				}
+				n++
+				why, ok := allowed[root.Name]
+				c.verdictIf(ok, rule, f, fmt.Sprintf("Delete#%d", n), cs.Call.Pos(), "recursive delete called from "+root.Name+": "+why,
+					root.Name+" calls the recursive Operations.Delete directly: a non-empty directory (e.g. the existing destination of a Rename) is wiped with everything beneath it instead of being refused")
+			}
+		}
+		if n < 2 {
+			c.unresolved("only %d calls of Operations.Delete in pkg/fs", n)
+		}
+	}
+}
+
+// ruleC15ReadOnlyMonotone: whatever NewSTFS stores into readOnly is true whenever the caller asked for read-only
+// (checked over all valuations of the other conditions).
+func ruleC15ReadOnlyMonotone(c *Ctx) {
+	const rule = "C15.readonly-monotone"
+	c.floor(rule, 1, "the value stored into STFS.readOnly by the constructor")
+	ro := c.field("pkg/fs", "STFS", "readOnly")
+	newSTFS := c.fn("pkg/fs", "NewSTFS")
+	if ro == nil || newSTFS == nil {
+		return
+	}
+	info := newSTFS.Pkg.TypesInfo
+	param := paramVar(newSTFS, "readOnly")
+	if param == nil {
+		c.unresolved("parameter readOnly of NewSTFS")
+		return
+	}
+	n := 0
+	for _, st := range c.storesTo(ro) {
+		if st.In != newSTFS || st.Value == nil {
+			continue
+		}
+		n++
+		// inline locals one level
+		var inline func(e ast.Expr, depth int) ast.Expr
+		inline = func(e ast.Expr, depth int) ast.Expr { return e }
+		_ = inline
+		expr := st.Value
+		if o := objOfIdent(info, expr); o != nil && o != types.Object(param) {
+			if as, _, _ := defOf(newSTFS, o); as != nil && len(as.Rhs) == 1 {
+				expr = &ast.ParenExpr{X: as.Rhs[0]}
+				if u, ok := ast.Unparen(st.Value).(*ast.UnaryExpr); ok && u.Op == token.NOT {
+					expr = st.Value
+				}
+			}
+		}
+		// substitute locals inside the expression by their definitions (depth 2)
+		subst := map[string]ast.Expr{}
+		ast.Inspect(expr, func(m ast.Node) bool {
+			if id, ok := m.(*ast.Ident); ok {
+				if o := info.Uses[id]; o != nil && o != types.Object(param) {
+					if v, ok := o.(*types.Var); ok && !v.IsField() {
+						if as, _, _ := defOf(newSTFS, v); as != nil && len(as.Rhs) == 1 {
+							subst[id.Name] = as.Rhs[0]
+						}
+					}
+				}
+			}
+			return true
+		})
+		atoms := map[string]bool{}
+		var compile func(e ast.Expr, depth int) boolExpr
+		compile = func(e ast.Expr, depth int) boolExpr {
+			e = ast.Unparen(e)
+			if id, ok := e.(*ast.Ident); ok && depth < 3 {
+				if r, ok := subst[id.Name]; ok {
+					return compile(r, depth+1)
+				}
+			}
+			switch x := e.(type) {
+			case *ast.UnaryExpr:
+				if x.Op == token.NOT {
+					in := compile(x.X, depth)
+					return func(v map[string]bool) bool { return !in(v) }
+				}
+			case *ast.BinaryExpr:
+				if x.Op == token.LAND || x.Op == token.LOR {
+					a, b := compile(x.X, depth), compile(x.Y, depth)
+					if x.Op == token.LAND {
+						return func(v map[string]bool) bool { return a(v) && b(v) }
+					}
+					return func(v map[string]bool) bool { return a(v) || b(v) }
+				}
+			}
+			return compileBool(e, atoms)
+		}
+		fn := compile(expr, 0)
+		var names []string
+		for a := range atoms {
+			names = append(names, a)
+		}
+		sort.Strings(names)
+		counter := ""
+		if len(names) <= 10 {
+			for m := 0; m < 1<<len(names); m++ {
+				v := map[string]bool{}
+				for i, a := range names {
+					v[a] = m&(1<<i) != 0
+				}
+				if !v[param.Name()] {
+					continue
+				}
+				if !fn(v) {
+					var parts []string
+					for _, a := range names {
+						parts = append(parts, fmt.Sprintf("%s=%v", a, v[a]))
+					}
+					counter = strings.Join(parts, ", ")
+					break
+				}
+			}
+		} else {
+			counter = "too many conditions to enumerate"
+		}
+		_, hasParam := atoms[param.Name()]
+		c.verdictIf(counter == "" && hasParam, rule, newSTFS, fmt.Sprintf("readOnly value#%d", n), st.Node.Pos(), "the stored flag is true whenever the caller asked for a read-only filesystem",
+			"the constructor can store readOnly=false although the caller asked for read-only ("+counter+"): every mutating method is then allowed on that instance")
+	}
+	if n == 0 {
+		c.unresolved("NewSTFS does not store STFS.readOnly")
+	}
+}
+
+// ruleC04BlockCountRoundsUp: the number of 512-byte blocks up to a byte position is a ceiling (round-up) division.
+func ruleC04BlockCountRoundsUp(c *Ctx) {
+	const rule = "C04.block-count-rounds-up"
+	c.floor(rule, 4, "divisions of a byte position by the block size in Index and Query")
+	bs := c.constObj("pkg/config", "MagneticTapeBlockSize")
+	if bs == nil {
+		return
+	}
+	for _, name := range []string{"Index", "Query"} {
+		f := c.fn("pkg/recovery", name)
+		if f == nil {
+			continue
+		}
+		info := f.Pkg.TypesInfo
+		n := 0
+		parents := map[ast.Node]ast.Node{}
+		var stack []ast.Node
+		ast.Inspect(f.Body(), func(m ast.Node) bool {
+			if m == nil {
+				stack = stack[:len(stack)-1]
+				return true
+			}
+			if len(stack) > 0 {
+				parents[m] = stack[len(stack)-1]
+			}
+			stack = append(stack, m)
+			return true
+		})
+		walkOwn(f.Body(), func(nd ast.Node) {
+			be, ok := nd.(*ast.BinaryExpr)
+			if !ok || be.Op != token.QUO {
+				return
+			}
+			if constOf(info, stripConv(info, be.Y)) != bs {
+				return
+			}
+			n++
+			// ceiling forms: inside math.Ceil(...), or numerator of the form X + BS - 1
+			ceil := false
+			for p := parents[be]; p != nil; p = parents[p] {
+				if call, ok := p.(*ast.CallExpr); ok && isPkgFunc(calleeObj(info, call), "math", "Ceil") {
+					ceil = true
+				}
+				if _, ok := p.(ast.Stmt); ok {
+					break
+				}
+			}
+			num := types.ExprString(stripConv(info, be.X))
+			if strings.Contains(num, "MagneticTapeBlockSize") && strings.Contains(num, "- 1") {
+				ceil = true
+			}
+			c.verdictIf(ceil, rule, f, fmt.Sprintf("division#%d", n), be.Pos(), "byte position is rounded up to whole blocks",
+				"a byte position is divided by the block size without rounding up ("+exprString(be)+"): when the drive does not end on a block boundary (torn write) the resynchronisation seeks back to the same partial block forever")
+		})
+		if n < 2 {
+			c.unresolved("only %d divisions by the block size in %s", n, name)
+		}
 	}
 }
